@@ -13,6 +13,8 @@ import MinizProof.Gen.All
 import MinizProof.Lemmas.Finite
 import MinizProof.Lemmas.InflStream
 import MinizProof.Lemmas.InflBytes
+import MinizProof.Lemmas.InflBytesAll
+import MinizProof.Props.C09
 set_option maxRecDepth 1000000
 open Fin'
 namespace C13
@@ -466,6 +468,42 @@ theorem safe_every_call (P : Array UInt8) : ∀ (rs : List (Nat × Nat × Model.
         (fun j hj => by have := hbefore (j + 1) (by omega); simpa using this) n room r (by simpa using hget)
       rw [List.take_succ_cons, Model.InflB.delivered_cons, ← Array.append_assoc]
       exact this
+
+open Model.Core Model.InflB Spec in
+/-- ENCODER SPECIFICATION → STREAMING WRAPPER, END TO END: take any well-formed sequence of static,
+    dynamic and stored blocks (any tokens, any valid code lengths, any header run-length coding), frame
+    it as zlib with any RFC-valid header pair, cut the bytes holding that encoding into any chunks and
+    feed them through `inflate()` with any output sizes: what comes out is, call by call, a prefix of
+    the LZ77 expansion of the blocks' tokens and, at the first stream end, exactly that expansion.
+    (`C09.zlib_encoding_round_trip` + `valid_zlib_stream_through_inflate`.) -/
+theorem conforming_zlib_encoding_through_inflate (cmf flg : Nat) (hc : cmf < 256) (hf : flg < 256)
+    (hv : zlibHeaderValid cmf flg = true) (bs : List EncBlock) (hok : C10.StreamOk 32768 #[] bs)
+    (calls : List (Array UInt8 × Nat)) (b0 : Array UInt8)
+    (h : HasBits (catList (calls.map Prod.fst) ++ b0) 0 (zlibBits cmf flg bs)) :
+    Safe (expandBlocks #[] #[] bs) #[]
+      (runInfl (Model.Infl.flagParseZlib + Model.Infl.flagComputeAdler + Model.Infl.flagHasMoreInput) WB.fresh #[] calls) := by
+  obtain ⟨zr, hacc, hout, _⟩ := C09.zlib_encoding_round_trip cmf flg hc hf hv 32768 _ bs hok h
+  rw [← hout]
+  exact valid_zlib_stream_through_inflate calls b0 zr hacc
+
+open Model.Core Model.InflB in
+/-- FOR EVERY INPUT — valid, truncated, corrupt, anything — every flag word and every sequence of calls
+    on the byte-level model: no call consumes more than it was offered or hands over more than there
+    was room for. (Induction over the loop and the call list with the window geometry as invariant;
+    the decoder's own bounds are C05 / C08.) -/
+theorem counts_within_buffers_for_every_input (flags : Nat) (calls : List (Array UInt8 × Nat)) :
+    ∀ x ∈ runInfl flags WB.fresh #[] calls, x.2.2.consumed ≤ x.1 ∧ x.2.2.out.size ≤ x.2.1 :=
+  runInfl_counts flags calls WB.fresh #[] fresh_geo
+
+open Model.Core Model.InflB in
+/-- A RECORDED DECODER FAILURE IS STICKY, with bytes: whatever is offered afterwards, the call consumes
+    nothing, hands over nothing, leaves the state as it is and reports the same error again (a data
+    error; a buffer error for "cannot make progress"). -/
+theorem failure_is_sticky_with_bytes (flags : Nat) (w : WB) (inp : Array UInt8) (room : Nat) (hf : w.last < 0) :
+    (inflateNone flags w inp room).1 = w ∧ (inflateNone flags w inp room).2.consumed = 0 ∧
+    (inflateNone flags w inp room).2.out = #[] ∧
+    (inflateNone flags w inp room).2.status = (if w.last = stFailedCannotMakeProgress then Model.InflB.rBuf else Model.InflB.rData) :=
+  inflateNone_failed_sticky flags w inp room hf
 
 -- non-vacuity: a stored block "hi" (final), fed in two calls with one byte of room, then plenty
 example : (Model.InflB.runInfl 66 Model.InflB.WB.fresh #[] [(#[0x01, 0x02, 0x00], 1), (#[0xfd, 0xff, 0x68, 0x69], 1), (#[], 5)]).map
